@@ -16,6 +16,7 @@ Case kinds (one line each; harness/kernels.cpp and ocaml/drv_kernels.ml):
   implementation only (monitor; the real-valued model is not executable)
     G dir ew ns kernel scale shape seed n    kappa = 1e6: sign pattern and
                                |drow|*ns ~ |dcol|*ew for every draw
+    GF / RF nat|ant ...        G / R through create_natural_kernel / create_anthro_kernel
     R kernel scale shape dir kappa ew ns seed n   distance reconstructed from the
                                offsets against the kernel's own cdf (banded KS), quadrants
     K kernel scale shape seed n    Kolmogorov-Smirnov of |random()| against the cdf
@@ -206,6 +207,15 @@ def gen_stat(rng, thorough):
             ns = ew * rng.choice([1.0, 0.5, 3.0])
             d, kap = rng.choice([("NONE", 0), ("NONE", 3), (rng.choice(DIRS), 2), (rng.choice(DIRS), 0)])
             cases.append("R %s %g %g %s %g %g %g %d %d" % (k, sc, sh, d, kap, ew, ns, rng.randint(1, 10 ** 6), n // 2))
+    # ... and through the factories (the other kernel's configuration holds decoy values)
+    for which in ("nat", "ant"):
+        for k in rng.sample(sorted(RADIAL), 4 if thorough else 2):
+            sc, sh = law_params(rng, k)
+            typical = sc * sh if k == "gamma" else (sh if k == "powerlaw" else (1.0 if k == "lognormal" else sc))
+            ew = typical / 40.0
+            ns = ew * rng.choice([0.5, 3.0])
+            d, kap = rng.choice([("NONE", 0), (rng.choice(DIRS), 2)])
+            cases.append("RF %s %s %g %g %s %g %g %g %d %d" % (which, k, sc, sh, d, kap, ew, ns, rng.randint(1, 10 ** 6), n // 2))
     # geometry at kappa = 1e6
     res = [(10.0, 10.0), (10.0, 30.0), (30.0, 10.0), (100.0, 25.0)]
     if thorough:
@@ -217,6 +227,9 @@ def gen_stat(rng, thorough):
             if k == "lognormal":
                 ew, ns = ew / 4000.0, ns / 4000.0
             cases.append("G %s %g %g %s %g %g %d %d" % (d, ew, ns, k, sc, 2.0, rng.randint(1, 10 ** 6), 60 if thorough else 25))
+        ew, ns = rng.choice(res[1:])
+        cases.append("GF %s %s %g %g %s %g %g %d %d" % (rng.choice(["nat", "ant"]), d, ew, ns, rng.choice(["exponential", "normal", "weibull"]),
+                                                       2000.0 * max(ew, ns), 2.0, rng.randint(1, 10 ** 6), 25))
     for p in [0.0, 0.25, 0.5, 0.9, 1.0, rng.randint(1, 19) / 20.0]:
         cases.append("B %g %d %d" % (p, rng.randint(1, 10 ** 6), 40000))
     return cases
@@ -267,6 +280,11 @@ def kv(s):
             a, b = tok.split("=", 1)
             d[a] = b
     return d
+
+
+def ew_eq_ns(t):
+    """R case tokens (after removing the factory tag): ew and ns resolutions equal"""
+    return float(t[6]) == float(t[7])
 
 
 def expected_class(which, idx, stochastic):
@@ -374,8 +392,10 @@ def monitor(cases, out, ctx):
             exp = expected_class(t[1], idx, int(t[3])) if idx is not None else None
             if val != exp:
                 ctx.violation("C13.factory.class", "%s factory for %r (stochastic=%s) creates a %s kernel, expected %s" % (t[1], s, t[3], val, exp), line)
-        elif c == "G":
+        elif c in ("G", "GF"):
             st["G"] += 1
+            if c == "GF":
+                t = [t[0]] + t[2:]
             d, ew, ns = t[1], float(t[2]), float(t[3])
             if tag != "geo" or val.startswith("err"):
                 ctx.violation("C13.geometry.run", "radial kernel run failed: %s" % first, line)
@@ -404,7 +424,10 @@ def monitor(cases, out, ctx):
                     ctx.violation("C13.geometry.%s" % bad, "direction %s, kappa 1e6, ew_res %g ns_res %g: offset (%d rows, %d cols) = (%g, %g) map units"
                                   % (d, ew, ns, dr, dc, dr * ns, dc * ew), line)
                     break
-        elif c in ("K", "R"):
+        elif c in ("K", "R", "RF"):
+            if c == "RF":
+                t = [t[0]] + t[2:]
+                c = "R"
             st[c] += 1
             kn = t[1]
             d = kv(val)
@@ -433,6 +456,17 @@ def monitor(cases, out, ctx):
                     away = sum(q[i] for i, (r_, c_) in enumerate([(-1, 1), (1, 1), (1, -1), (-1, -1)]) if r_ * sr + c_ * sc < 0)
                     if towards <= 2 * away:
                         ctx.violation("C13.direction.concentration", "direction %s kappa %g: %d draws towards, %d away (quadrants %s)" % (dirn, kap, towards, away, q), line)
+                    # symmetric about the direction: mirror-image quadrants are equally likely
+                    qd = dict(zip(["NE", "SE", "SW", "NW"], q))
+                    mirror = {"N": [("NE", "NW"), ("SE", "SW")], "S": [("NE", "NW"), ("SE", "SW")],
+                              "E": [("NE", "SE"), ("NW", "SW")], "W": [("NE", "SE"), ("NW", "SW")],
+                              "NE": [("NW", "SE")], "SW": [("NW", "SE")], "NW": [("NE", "SW")], "SE": [("NE", "SW")]}[dirn]
+                    if ew_eq_ns(t) or len(mirror) == 2:
+                        for a_, b_ in mirror:
+                            if abs(qd[a_] - qd[b_]) > 6 * math.sqrt(qd[a_] + qd[b_] + 1) + 0.01 * (qd[a_] + qd[b_]):
+                                ctx.violation("C13.direction.symmetry", "direction %s kappa %g: mirror-image quadrants %s=%d and %s=%d differ"
+                                              % (dirn, kap, a_, qd[a_], b_, qd[b_]), line)
+                                break
         else:
             ctx.violation("C13.case", "unknown case kind", line)
     return st
@@ -448,7 +482,7 @@ def relevant(l):
 
 def nontrivial(c):
     t = c.split()
-    if t[0] in ("G", "R", "K", "U", "UF", "B"):
+    if t[0] in ("G", "GF", "R", "RF", "K", "U", "UF", "B"):
         return True
     if t[0] == "M":
         return t[1] == "1" and t[2] == "1"
@@ -537,7 +571,7 @@ def check(ctx, replay=None):
     draws = 0
     for c in cases:
         t = c.split()
-        if t[0] in ("K", "R", "G", "U", "B"):
+        if t[0] in ("K", "R", "RF", "G", "GF", "U", "B"):
             draws += int(t[-1])
         elif t[0] == "UF":
             draws += int(t[-1])
